@@ -17,7 +17,7 @@ MANIFEST = dict(
               "replay into the implementation through gated doubles",
     design="5/C02")
 INVS = ["TypeOK", "Restored", "BodyExcIdentity", "EnterOnce", "ExitOnce", "ExitArg", "EnterFailureNoBody",
-        "SurfaceCleanup", "CancelNotLost", "CancelAbortsMembers", "NoWaitAfterFailure"]
+        "SurfaceCleanup", "CancelNotLost", "CancelAbortsMembers", "NoWaitAfterFailure", "DisposableStateVisible"]
 ALL = ["ok", "fail", "susp"]
 ACTIONS = ["Enter", "Cancel", "Leave", "ReleaseEnter", "ReleaseExit", "Spawn", "ChildEnd", "ChildFail"]
 
@@ -37,7 +37,7 @@ def run(rep, work, tier, seed):
                    cfg_text(dict(small, Bug="no_restore_on_failure"), invariants=INVS), ["Restored"])
         leg_mutant(rep, work, SPEC, "mutant_exit_failure_awaits_members",
                    cfg_text(dict(small, Bug="exit_failure_awaits_members"), invariants=INVS),
-                   ["CancelAbortsMembers", "NoWaitAfterFailure"])
+                   ["CancelAbortsMembers", "NoWaitAfterFailure", "DisposableStateVisible"])
         leg_mutant(rep, work, SPEC, "mutant_swallow_exit_cancel",
                    cfg_text(dict(small, Bug="swallow_exit_cancel"), invariants=INVS), ["CancelNotLost"])
     for name, conf in confs:
